@@ -283,6 +283,27 @@ pub(crate) async fn sched_point(kind: u64) {
     }
 }
 
+/// A scheduling point inside a poll function: with half the run's yield rate the caller reports
+/// "pending" although it could proceed, after arranging to be polled again at once. Asynchronous I/O
+/// may always do that; the effect is that the other runnable tasks get a turn first.
+fn spurious_pending(cx: &mut Context<'_>, kind: u64) -> bool {
+    let go = NET.with(|n| match n.borrow_mut().as_mut() {
+        Some(net) if net.sched_yield_per_mille > 0 => {
+            let hit = net.sched_rng.below(1000) < net.sched_yield_per_mille / 2;
+            if hit {
+                net.sched_yields += 1;
+            }
+            hit
+        }
+        _ => false,
+    });
+    if go {
+        log_event("yield", kind, 0);
+        cx.waker().wake_by_ref();
+    }
+    go
+}
+
 pub(crate) fn trace_on() -> bool {
     static ON: std::sync::OnceLock<bool> = std::sync::OnceLock::new();
     *ON.get_or_init(|| std::env::var_os("VERIF_TRACE").is_some())
@@ -420,6 +441,11 @@ impl TcpStream {
                 }
             }
             if !ready.is_empty() {
+                // spurious "not ready yet": the task is woken at once and polled again after the
+                // other runnable tasks (a scheduling point like the ones at the global lock)
+                if spurious_pending(cx, 5) {
+                    return Poll::Pending;
+                }
                 return Poll::Ready(Ok(ready));
             }
             if interest.is_readable() {
@@ -647,6 +673,9 @@ impl AsyncWrite for TcpStream {
     fn poll_write(self: Pin<&mut Self>, cx: &mut Context<'_>, data: &[u8]) -> Poll<io::Result<usize>> {
         if data.is_empty() {
             return Poll::Ready(Ok(0));
+        }
+        if spurious_pending(cx, 6) {
+            return Poll::Pending;
         }
         self.write_some(data, Some(cx), false)
     }
